@@ -426,3 +426,53 @@ PROPS["C16"] = dict(
                         what="cbor.NewDecoder / json.NewDecoder over a reader failing with a distinguished error at every byte offset, fail-stop and fail-once")),
     ],
 )
+
+
+# ---------------------------------------------------------------------------
+# C10: transcode  impl = "ok <hex> @c | common= val= slow= cli=" | "err | cli=.." | "panic | cli=.."
+#                 model = "ok <hex> @c" | "err"
+# ---------------------------------------------------------------------------
+_C10 = _re.compile(r"common=(\d) val=(\d) slow=(\S) cli=(\S+)")
+
+
+def cmp_c10(payload, impl, model):
+    left, _, info = impl.partition(" | ")
+    cli = info.split("cli=")[-1].strip() if "cli=" in info else "-"
+    if left.startswith("panic"):
+        return viol("the pump panicked")
+    if cli != "-":
+        if left.startswith("ok") and cli != "ok:" + left.split()[1]:
+            return viol("the refmt command-line converter gave %s, the library pump gave %s" % (cli[:80], left[:80]))
+        if left.startswith("err") and cli != "err":
+            return viol("the library pump failed but the command-line converter succeeded: %s" % cli[:80])
+    if left.startswith("ok"):
+        m = _C10.search(info)
+        common, val, slow = (m.group(1), m.group(2), m.group(3)) if m else ("0", "0", "-")
+        if model == "err":
+            return viol("the input is rejected by the decoder model (malformed) but the pump succeeded: %s" % left[:80])
+        if common == "1":
+            if val != "1":
+                return viol("the transcoded document does not denote the same value as the input: %s" % left[:100])
+            if slow == "0":
+                return viol("the pump's output and the Unmarshal(untyped)+Marshal route denote different values")
+        if left != model:
+            return (viol if common == "1" else mism)("pump output %s, model %s" % (left[:80], model[:80]))
+        return None
+    # impl err
+    if model.startswith("ok"):
+        return viol("the pump failed on an input the models transcode: %s" % model[:100])
+    return None
+
+
+PROPS["C10"] = dict(
+    coq="Properties_C10",
+    level_text="Proved in Coq as compositions of the codec theorems over the lock-step pump model: JSON->CBOR of any text the reference reading accepts writes the RFC 7049 encoding of the value it denotes, which reads back as that value; CBOR->JSON of any well-formed item in the common data model writes a text the strict RFC 8259 reading reads as that value; a decoder error is a pump error; a successful pump consumed exactly one item. The library composition is tied to shared.TokenPump with both real codecs by the correspondence run (output bytes, consumed bytes), value preservation is re-checked independently in the harness, the slow route (Unmarshal into interface{} + Marshal) is compared by value, and the refmt CLI (json=cbor, cbor=json) is run black-box on a sample and must produce the library's bytes.",
+    level_note="The CLI wiring and the slow route are checked by differential execution only (not modelled). Floats crossing to JSON use the shortest-digits oracle. Trusted: Coq kernel, extraction, driver, harness. No axioms.",
+    rule="documents of both formats in all spellings, plus truncated ones; non-trivial = pump succeeded on an input of at least 2 bytes; distinct by payload",
+    trusted_base=TB_COMMON,
+    assumptions=["common data model = string keys, no byte strings, no tags, finite floats, valid UTF-8"],
+    suites=[
+        ("transcode", dict(cmp=cmp_c10, nontrivial=lambda p, i, m: i.startswith("ok") and len(p.split()[1]) >= 4, shrink=False,
+                           what="shared.TokenPump{json.Decoder -> cbor.Encoder} and {cbor.Decoder -> json.Encoder} vs Pump.pump_j2c / pump_c2j (bytes written, bytes consumed); value check by independent decoding; slow route by value; refmt CLI on every 40th document")),
+    ],
+)
